@@ -929,6 +929,13 @@ func (r *vfRun) resolve(e *vfEvent) {
 	if e.SEID == "" {
 		e.SEID = "0"
 	}
+	// a reference that could not be resolved (fewer report requests than the generator guessed)
+	if (e.T == "rptrsp" || e.T == "hbrsp") && e.Peer == "" {
+		e.Peer = "p1"
+	}
+	if e.T == "timeout" && e.TPeer == "" {
+		e.TPeer = "p1"
+	}
 }
 
 func vfNorm(e *vfEvent) {
